@@ -129,7 +129,8 @@ Section FifoLit.
     end.
 
   (* representation: free nodes (no key) form a prefix of the list, the used nodes follow in
-     insertion order and, read through their cells, are the mid-level list *)
+     insertion order and, read through their cells, are the mid-level list; the index maps a
+     key to a node exactly when that node is used and its cell holds that key *)
   Definition fl_entry (s : fifol) (n : nat) : option (K * V) :=
     match nth_error (fl_cells s) n with
     | Some {| fc_keyed := Some k; fc_val := Some v |} => Some (k, v)
@@ -143,8 +144,8 @@ Section FifoLit.
       fl_used l = List.length used /\ List.length (fl_index l) = List.length used /\ NoDup (keys (fl_index l)) /\
       (forall n, In n free -> exists c, nth_error (fl_cells l) n = Some c /\ fc_keyed c = None) /\
       map (fl_entry l) used = map (@Some (K * V)) (lc_items s) /\
-      (forall n, In n used -> exists k v, fl_entry l n = Some (k, v) /\ assoc k (fl_index l) = Some n) /\
-      (forall k n, assoc k (fl_index l) = Some n -> In n used).
+      (forall n k v, In n used -> fl_entry l n = Some (k, v) -> assoc k (fl_index l) = Some n) /\
+      (forall k n, assoc k (fl_index l) = Some n -> In n used /\ exists v, fl_entry l n = Some (k, v)).
 End FifoLit.
 
 Arguments fifol : clear implicits.
